@@ -97,7 +97,7 @@ def _suites(prop: str, tier: str) -> t.List[Suite]:
         ] + [
             # the engine's hash-ordered sets of node ids (notification order of a node's consumers, node order of small
             # sub-DAG views) iterated in sorted / reverse-sorted order instead of the order PYTHONHASHSEED=0 gives
-            Suite(f'set-order-{o}', ['corpus'] + ([] if q else ['oneofx', 'mix', 'recx', 'switchx']), ['outcome', 'varies'], 0, ['async'],
+            Suite(f'set-order-{o}', ['corpus'] + ([] if q else ['oneofx']), ['outcome', 'varies'], 0, ['async'],
                   collab={'set_order': o}, symptoms=sym, min_nodes=6)
             for o in ('sorted', 'reversed')
         ] + [
@@ -111,7 +111,7 @@ def _suites(prop: str, tier: str) -> t.List[Suite]:
             Suite('composed', COMPOSED, ['term'], 0, ['async'] if q else ['async', 'thread'], symptoms=TERM, plans='std' if q else 'pairs'),
             Suite('d1', ['corpus'] + ([] if q else ['plain', 'oneof', 'switch']), ['term'], 1, ['thread'], symptoms=TERM, max_nodes=5 if q else 5),
         ] + [
-            Suite(f'set-order-{o}', ['corpus'] + ([] if q else ['oneofx', 'mix', 'recx', 'switchx']), ['term'], 0, ['async'],
+            Suite(f'set-order-{o}', ['corpus'] + ([] if q else ['oneofx']), ['term'], 0, ['async'],
                   collab={'set_order': o}, symptoms=TERM, min_nodes=6)
             for o in ('sorted', 'reversed')
         ] + [
